@@ -2,6 +2,7 @@ package hval
 
 import (
 	"strconv"
+	"strings"
 
 	"verifh/hparse"
 	"verifh/verifrt"
@@ -68,16 +69,18 @@ func (b *B) id(prefix string) string {
 	return prefix + strconv.Itoa(b.slot)
 }
 
-// pick emits a Name token whose value is a symbolic choice among opts.
+// pick emits a Name token whose value is a symbolic choice among opts. The
+// variable is named after the slot and the options: the same slot number means
+// different things on different paths, and a variable must mean one thing.
 func (b *B) pick(opts ...string) string {
-	v := verifrt.Choice(b.id("nm"), opts...)
+	v := verifrt.Choice(b.id("nm")+"_"+strings.Join(opts, "."), opts...)
 	b.toks = append(b.toks, hparse.Tok{Kind: hparse.KName, Val: v})
 	return v
 }
 
 // alt chooses one of n structural alternatives (one path each). A case may pin
-// a slot through a parameter of the same name (alt<slot>=k), which is how the
-// driver splits a shape over several runs.
+// a slot through a parameter named alt<slot>, which is how the driver splits a
+// shape over several runs.
 func (b *B) alt(n int) int {
 	id := b.id("alt")
 	if p := verifrt.Param(id, -1); p >= 0 {
@@ -86,7 +89,18 @@ func (b *B) alt(n int) int {
 		}
 		return p
 	}
-	return verifrt.Split(verifrt.Int(id, 0, n-1))
+	return verifrt.Split(verifrt.Int(id+"_of"+strconv.Itoa(n), 0, n-1))
+}
+
+// altN is alt with a stable name, for alternatives the driver splits on.
+func (b *B) altN(name string, n int) int {
+	if p := verifrt.Param(name, -1); p >= 0 {
+		if p >= n {
+			verifrt.Assume(false)
+		}
+		return p
+	}
+	return verifrt.Split(verifrt.Int(name, 0, n-1))
 }
 
 func (b *B) braces(f func()) { b.p(hparse.KBraceL); f(); b.p(hparse.KBraceR) }
@@ -266,7 +280,7 @@ var Shapes = []func(b *B){
 			b.pick("A", "B", "C")
 		}
 		b.braces(func() {
-			switch b.alt(3) {
+			switch b.altN("top", 3) {
 			case 0:
 				spread()
 			case 1:
@@ -275,32 +289,32 @@ var Shapes = []func(b *B){
 				b.n("i")
 				b.braces(func() { spread() })
 			}
-			if b.alt(2) == 1 {
+			if b.altN("inline", 2) == 1 {
 				b.n("u")
 				b.braces(func() {
 					b.p(hparse.KSpread)
 					b.n("on")
-					b.pick("Obj", "Obj2", "Iface", "Un", "Query", "Int", "Missing")
-					b.braces(func() { b.pick("id", "a", "__typename") })
+					b.pick("Obj", "Iface", "Query", "Int", "Missing")
+					b.braces(func() { b.pick("id", "zz") })
 				})
 			}
 		})
 		b.ns("fragment", "A", "on")
-		b.pick("Query", "Obj", "Iface", "Un", "Int", "E", "Missing", "In")
+		b.pick("Query", "Obj", "Iface", "Un", "Int", "Missing")
 		b.braces(func() {
-			b.pick("id", "a", "__typename", "zz")
-			if b.alt(2) == 1 {
+			b.pick("id", "zz")
+			if b.altN("aspread", 2) == 1 {
 				spread()
 			}
 		})
-		if b.alt(2) == 1 {
+		if b.altN("frag2", 2) == 1 {
 			b.n("fragment")
 			b.pick("A", "B")
 			b.n("on")
-			b.pick("Obj", "Obj2", "Query")
+			b.pick("Obj", "Query")
 			b.braces(func() {
 				b.n("a")
-				if b.alt(2) == 1 {
+				if b.altN("bspread", 2) == 1 {
 					spread()
 				}
 			})
